@@ -1130,3 +1130,67 @@ Proof.
   destruct (move_one_of_step c s a pa cells SelClosest he out s' l Hwf Ha Hp Hne Hst) as (o & ld & _ & _ & H3 & _ & H5).
   exists ld. split; [exact H3|]. apply H5. reflexivity.
 Qed.
+
+(* ================================================================== place / remove at step level *)
+
+Lemma place_step c s a p s' r :
+  Agree c s -> pos s a = None -> out_of_bounds c p = false -> step c s (Place a p) = (s', r) ->
+  (r = Ok [] /\ pos s' a = Some p /\ (forall b, b <> a -> pos s' b = pos s b) /\
+     (c_multi c = false -> grid s p = [])) \/
+  (s' = s /\ r = Err E_CELL_NOT_EMPTY /\ c_multi c = false /\ grid s p <> []).
+Proof.
+  intros Ha Hn Hin Hst. cbn [step] in Hst. unfold placed in Hst. rewrite Hn, Hin in Hst. cbn [orb] in Hst.
+  destruct (place_cases c s a p s' r Ha Hn Hin Hst) as [(H1 & _ & H2 & H3 & H4)|H]; [left|right; exact H].
+  repeat split; assumption.
+Qed.
+
+Lemma remove_step c s a p s' r :
+  Agree c s -> pos s a = Some p -> step c s (Remove a) = (s', r) ->
+  r = Ok [] /\ pos s' a = None /\ (forall b, b <> a -> pos s' b = pos s b) /\
+  (forall q, q <> p -> grid s' q = grid s q).
+Proof.
+  intros Ha Hp Hst. cbn [step] in Hst. unfold placed in Hst. rewrite Hp in Hst.
+  destruct (remove_ok c s a p Ha Hp) as (s1 & Hr & Hrs). rewrite Hr in Hst. inversion Hst. subst.
+  split; [reflexivity|]. split; [apply (removed_pos_none s a p s' Hrs)|]. split.
+  - intros b Hb. apply (removed_pos_other s a p s' b Hrs Hb).
+  - intros q Hq. destruct Hrs as (Hg & _). rewrite Hg. rewrite (coord_eqb_neq q p Hq). reflexivity.
+Qed.
+
+(* ================================================================== run_case runs this very step *)
+
+(* the observation stream the correspondence check compares with the implementation is produced by
+   the very `step` the theorems speak about, applied to the states `run c init (prefix)` *)
+Lemma run_app c ops1 ops2 s : run c s (ops1 ++ ops2) = run c (run c s ops1) ops2.
+Proof. revert s. induction ops1 as [|o t IH]; intros s; cbn [app run]; [reflexivity|apply IH]. Qed.
+
+Lemma run_obs_nth_from c n ops : forall s k o,
+  nth_error ops k = Some o ->
+  nth_error (run_obs c n s ops) k =
+    Some (let sr := step c (run c s (firstn k ops)) o in
+          obs_res (snd sr) ++ (-8) :: obs_state c n (fst sr)).
+Proof.
+  induction ops as [|o' t IH]; intros s k o Hk.
+  - destruct k; discriminate.
+  - destruct k as [|k].
+    + cbn in Hk. inversion Hk. subst o'. cbn [run_obs firstn run].
+      destruct (step c s o) as [s' r]. reflexivity.
+    + cbn [nth_error] in Hk. cbn [run_obs firstn run].
+      destruct (step c s o') as [s' r] eqn:E. cbn [nth_error fst].
+      rewrite (IH s' k o Hk). reflexivity.
+Qed.
+
+Lemma run_obs_length c n ops : forall s, length (run_obs c n s ops) = length ops.
+Proof.
+  induction ops as [|o t IH]; intros s; cbn [run_obs length]; [reflexivity|].
+  destruct (step c s o) as [s' r]. cbn [length]. rewrite IH. reflexivity.
+Qed.
+
+Lemma run_case_is_step k i o :
+  nth_error (k_ops k) i = Some o ->
+  length (run_case k) = length (k_ops k) /\
+  nth_error (run_case k) i =
+    Some (let sr := step (k_cfg k) (run (k_cfg k) init (firstn i (k_ops k))) o in
+          obs_res (snd sr) ++ (-8) :: obs_state (k_cfg k) (k_n k) (fst sr)).
+Proof.
+  intros H. unfold run_case. split; [apply run_obs_length|apply run_obs_nth_from; exact H].
+Qed.
